@@ -239,19 +239,28 @@ fn plant_sites(t: &Value, path: Vec<String>, out: &mut Vec<(Vec<String>, Value, 
     };
     let tru = json!({"k": "true"});
     let one = json!({"k": "lit", "v": {"s": 1, "m": [1]}});
+    // offenders of the wrong ground type, atomic and compound (a negation, an operator, a conditional): the diagnostic has to
+    // cover the whole offending subexpression whatever its shape
+    let bools = [tru.clone(), json!({"k": "bin", "op": "lt", "a": one, "b": one}), json!({"k": "if", "c": tru, "a": tru, "b": tru})];
+    let ints = [one.clone(), json!({"k": "neg", "a": one}), json!({"k": "bin", "op": "sum", "a": one, "b": one}), json!({"k": "if", "c": tru, "a": one, "b": one})];
+    let mut put = |q: Vec<String>, pool: &[Value], role: &'static str| {
+        for v in pool {
+            out.push((q.clone(), v.clone(), role));
+        }
+    };
     match k {
         "bin" => {
-            out.push((sub("a"), tru.clone(), "operand"));
-            out.push((sub("b"), tru.clone(), "operand"));
+            put(sub("a"), &bools, "operand");
+            put(sub("b"), &bools, "operand");
         }
-        "neg" => out.push((sub("a"), tru.clone(), "operand")),
-        "if" => out.push((sub("c"), one.clone(), "condition")),
+        "neg" => put(sub("a"), &bools, "operand"),
+        "if" => put(sub("c"), &ints, "condition"),
         "app" => {
-            out.push((sub("a"), one.clone(), "applied literal"));
+            put(sub("a"), &ints[..1], "applied literal");
             if t["a"]["k"] == "lam" && t["a"]["imp"] != json!(true) {
                 match t["a"]["a"]["k"].as_str() {
-                    Some("int") => out.push((sub("b"), tru.clone(), "argument")),
-                    Some("bool") => out.push((sub("b"), one.clone(), "argument")),
+                    Some("int") => put(sub("b"), &bools, "argument"),
+                    Some("bool") => put(sub("b"), &ints, "argument"),
                     _ => {}
                 }
             }
